@@ -55,7 +55,7 @@ for k in ks:
         checks = {}
         for seed in (0, 1):
             t = time.time()
-            rcc, oc = sh(f"cd /verif && EKW_EVIDENCE_DIR=/root/work/seed_evidence EKW_LEAN_DIR={LEAN} EKW_REPO={REPO} VERIF_SEED={seed} ./check {prop} --tier quick", timeout=1500)
+            rcc, oc = sh(f"cd /verif && EKW_REPLAY_DIR=/root/work/seed_replays EKW_EVIDENCE_DIR=/root/work/seed_evidence EKW_LEAN_DIR={LEAN} EKW_REPO={REPO} VERIF_SEED={seed} ./check {prop} --tier quick", timeout=1500)
             lines = [l for l in oc.splitlines() if l.startswith("VIOLATION") or l.startswith("[" + prop)]
             checks[str(seed)] = {"exit": rcc, "lines": [l[:300] for l in lines][:6], "wall_s": round(time.time() - t, 1)}
             # keep the first replay for the record
